@@ -380,21 +380,21 @@ pub fn dec_term(c: &mut Cur<'_>, hdr_atoms: &[String], depth: u32) -> Result<Val
             m
         }
         88 | 103 => {
-            let node = dec_atom(c, hdr_atoms)?;
+            let node = dec_atom(c, hdr_atoms, depth)?;
             let id = c.u32()?;
             let serial = c.u32()?;
             let creation = if tag == 88 { c.u32()? } else { u32::from(c.u8()?) };
             Val::Pid { node, id, serial, creation }
         }
         120 => {
-            let node = dec_atom(c, hdr_atoms)?;
+            let node = dec_atom(c, hdr_atoms, depth)?;
             let id = c.u64()?;
             let creation = c.u32()?;
             Val::Port { node, id, creation }
         }
         90 => {
             let n = usize::from(c.u16()?);
-            let node = dec_atom(c, hdr_atoms)?;
+            let node = dec_atom(c, hdr_atoms, depth)?;
             let creation = c.u32()?;
             let mut ids = Vec::new();
             for _ in 0..n {
@@ -411,8 +411,13 @@ pub fn dec_term(c: &mut Cur<'_>, hdr_atoms: &[String], depth: u32) -> Result<Val
     })
 }
 
-fn dec_atom(c: &mut Cur<'_>, hdr_atoms: &[String]) -> Result<String, String> {
-    match dec_term(c, hdr_atoms, 0)? {
+fn dec_atom(c: &mut Cur<'_>, hdr_atoms: &[String], depth: u32) -> Result<String, String> {
+    // only an atom form may stand here
+    match c.b.get(c.p) {
+        Some(119 | 118 | 115 | 100 | 82) => {}
+        other => return Err(format!("expected an atom, found tag {:?}", other)),
+    }
+    match dec_term(c, hdr_atoms, depth + 1)? {
         Val::Atom(s) => Ok(s),
         other => Err(format!("expected an atom, got {}", other.short())),
     }
